@@ -27,6 +27,9 @@ pub struct Case {
     pub map: MapSpec,
     pub container: Container,
     pub mode: Mode,
+    /// log verbosity of the strict run: 0 default, 1..3 = -v.., 4 = -q, 5 = -qq
+    #[serde(default)]
+    pub strict_verbosity: u8,
 }
 
 fn base_strategy(max_records: usize) -> impl Strategy<Value = (CallSet, MapSpec)> {
@@ -51,10 +54,11 @@ fn strategy() -> impl Strategy<Value = Case> {
         container_strategy(),
         target_draw_strategy(),
         prop::bool::weighted(0.4),
+        prop_oneof![4 => Just(0u8), 1 => Just(1u8), 1 => Just(2u8), 1 => Just(3u8), 2 => Just(4u8), 2 => Just(5u8)],
     )
-        .prop_map(|((cs, map), container, td, project)| {
+        .prop_map(|((cs, map), container, td, project, strict_verbosity)| {
             let mode = if project { Mode::Project { m: resolve_targets(&cs, &map, &td) } } else { Mode::Plain };
-            Case { cs, map, container, mode }
+            Case { cs, map, container, mode, strict_verbosity }
         })
 }
 
@@ -102,7 +106,8 @@ fn eval(ctx: &Ctx, case: &Case) -> Verdict {
 
     // strict mode (not combinable with projection)
     if case.mode == Mode::Plain {
-        let strict = CreateOpts { strict: true, ..opts.clone() };
+        let v = case.strict_verbosity;
+        let strict = CreateOpts { strict: true, verbose: if v <= 3 { v } else { 0 }, quiet: if v >= 4 { v - 3 } else { 0 }, ..opts.clone() };
         let (srun, sargv) = run_create(ctx, &dir, "c10", &case.cs, &case.container, &strict, Transport::Path);
         let swhat = format!("`sfs {}`", sargv.join(" "));
         match want.first_skipped {
@@ -130,6 +135,9 @@ fn eval(ctx: &Ctx, case: &Case) -> Verdict {
         Mode::Plain => "plain+strict",
         Mode::Project { .. } => "projection",
     });
+    if case.mode == Mode::Plain {
+        pass.add_label(format!("strict-run-verbosity={}", ["default", "-v", "-vv", "-vvv", "-q", "-qq"][case.strict_verbosity.min(5) as usize]));
+    }
     if n_records == 1 {
         pass.add_label("single-record");
     }
@@ -178,7 +186,7 @@ fn sweep_strategy() -> impl Strategy<Value = SweepCase> {
         base_strategy(8),
         container_strategy(),
         prop_oneof![2 => Just(Fault::Ploidy), 1 => Just(Fault::TruncatedColumns), 1 => Just(Fault::BadPos), 1 => Just(Fault::BadGt), 1 => Just(Fault::TruncatedBcf), 1 => Just(Fault::TruncatedBgzfBcf), 1 => Just(Fault::TruncatedVcfLine)],
-        prop::bool::weighted(0.3),
+        prop::bool::weighted(0.5),
     )
         .prop_map(|((cs, map), container, fault, strict)| SweepCase {
             cs,
@@ -187,6 +195,22 @@ fn sweep_strategy() -> impl Strategy<Value = SweepCase> {
             fault,
             strict,
         })
+}
+
+/// With --strict, a record before position `at` that would be skipped makes the run fail first,
+/// whatever is wrong with the stream further on: its site must be the one named.
+fn earlier_skip(case: &SweepCase, at: usize) -> Option<(String, u64)> {
+    if !case.strict {
+        return None;
+    }
+    let want = create(&case.cs, &case.map, None);
+    match want.first_skipped {
+        Some(s) if s < at => {
+            let r = &case.cs.records[s];
+            Some((case.cs.contigs[r.contig].clone(), r.pos))
+        }
+        _ => None,
+    }
 }
 
 fn eval_sweep(ctx: &Ctx, case: &SweepCase) -> Verdict {
@@ -273,7 +297,7 @@ fn eval_sweep(ctx: &Ctx, case: &SweepCase) -> Verdict {
                     }
                 };
                 let (run, argv) = run_create_bytes(ctx, &dir, "c10s", &case.cs, &bytes, ext, &opts, Transport::Path);
-                (run, argv, None)
+                (run, argv, earlier_skip(case, at))
             }
             Fault::TruncatedColumns | Fault::BadPos | Fault::BadGt => {
                 let mut lines: Vec<String> = case.cs.records.iter().map(|r| r.vcf_line(&case.cs)).collect();
@@ -295,7 +319,7 @@ fn eval_sweep(ctx: &Ctx, case: &SweepCase) -> Verdict {
                 lines.insert(at, bad);
                 let text = format!("{}{}\n", case.cs.vcf_header(), lines.join("\n"));
                 let (run, argv) = run_create_bytes(ctx, &dir, "c10s", &case.cs, text.as_bytes(), "vcf", &opts, Transport::Path);
-                (run, argv, None)
+                (run, argv, earlier_skip(case, at))
             }
         };
         let what = format!("{:?} fault at record position {at} of {n} (`sfs {}`, {})", case.fault, argv.join(" "), case.container.label());
@@ -342,6 +366,7 @@ fn eval_large(ctx: &Ctx, case: &crate::props::c02::Case) -> Verdict {
         map: case.map.clone(),
         container: case.container.clone(),
         mode: Mode::Project { m: case.m.clone() },
+        strict_verbosity: 0,
     };
     let mut pass = eval(ctx, &converted)?;
     pass.add_label(format!("samples>={}", (case.cs.samples.len() / 100) * 100));
@@ -352,7 +377,7 @@ pub fn check(ctx: &Ctx) -> Check {
     let parts: Vec<Box<dyn Part>> = vec![
         Box::new(RandomPart {
             name: "conservation-and-strict",
-            rule: "call sets x maps x {plain (+ the same run with --strict), projection at --precision 12} x containers, single-record call sets forced as a class: Y of `Skipped X/Y` == records, X == model's skipped count, mass + X == records (exact without projection, cells*0.5e-12 + 1e-9 N with); --strict fails naming the FIRST record that would be skipped with empty stdout, or is byte-identical to the non-strict run; non-trivial = X >= 1 and mass >= 1",
+            rule: "call sets x maps x {plain (+ the same run with --strict at log verbosity default / -v / -vv / -vvv / -q / -qq), projection at --precision 12} x containers, single-record call sets forced as a class: Y of `Skipped X/Y` == records, X == model's skipped count, mass + X == records (exact without projection, cells*0.5e-12 + 1e-9 N with); --strict fails naming the FIRST record that would be skipped with empty stdout, or is byte-identical to the non-strict run; non-trivial = X >= 1 and mass >= 1",
             cases: ctx.tier.pick(4000, 120_000),
             strategy: Box::new(|| strategy().boxed()),
             eval: Box::new(eval),
@@ -366,7 +391,7 @@ pub fn check(ctx: &Ctx) -> Check {
         }),
         Box::new(RandomPart {
             name: "fault-sweep",
-            rule: "a fault (non-diploid genotype in a selected sample in any container; VCF line with truncated columns, non-numeric POS, GT `0/x`; a raw or BGZF-compressed BCF stream ending inside the record; VCF text ending inside the record line) placed at EVERY record position 0..=N of generated call sets with skippable and countable records before and after, with and without --strict: exit != 0, diagnostic, empty stdout; ploidy faults must name contig and position of the first failing record (an earlier skipped record under --strict); non-trivial = a fault at a position > 0",
+            rule: "a fault (non-diploid genotype in a selected sample in any container; VCF line with truncated columns, non-numeric POS, GT `0/x`; a raw or BGZF-compressed BCF stream ending inside the record; VCF text ending inside the record line) placed at EVERY record position 0..=N of generated call sets with skippable and countable records before and after, with and without --strict: exit != 0, diagnostic, empty stdout; ploidy faults must name contig and position of the first failing record; under --strict (half of the cases) a skippable record before the fault must be the one named, whatever kind of fault follows it; non-trivial = a fault at a position > 0",
             cases: ctx.tier.pick(800, 20_000),
             strategy: Box::new(|| sweep_strategy().boxed()),
             eval: Box::new(eval_sweep),
